@@ -17,7 +17,7 @@ from ..common import Skip, brief
 ID = "C14"
 CASES = {"quick": 3200, "thorough": 36000}
 FLOOR = {"quick": 1600, "thorough": 20000}
-FLOOR_COUNTERS = {"quick": {"fits_judged": 3500, "nested_pairs": 1200, "new_data_calls": 3000, "y1d_cases": 300, "default_n_components_fits": 100}, "thorough": {"fits_judged": 45000, "nested_pairs": 15000, "new_data_calls": 40000, "y1d_cases": 4000, "default_n_components_fits": 1200}}
+FLOOR_COUNTERS = {"quick": {"fits_judged": 3500, "nested_pairs": 1200, "new_data_calls": 3000, "y1d_cases": 300, "default_n_components_fits": 100, "estimators_with_a_past": 500, "arpack_fits": 200}, "thorough": {"fits_judged": 45000, "nested_pairs": 15000, "new_data_calls": 40000, "y1d_cases": 4000, "default_n_components_fits": 1200, "estimators_with_a_past": 6000, "arpack_fits": 2500}}
 RULE = (
     "case = centred X, Y (1-D and 2-D), mixing in (0,1], space in {feature, sample}, regressor in the admissible set, "
     "k in [1, rank]; the fit for k and, when k+1 <= rank, for k+1 (full solver) are judged: projector algebra on training "
@@ -46,6 +46,9 @@ def gen(rng, tier, index):
         "k": k,
         "space": gens.pick(rng, ("feature", "sample", "feature", "sample", "auto")),
         "defaults": bool(rng.random() < 0.15),  # n_components=None, svd_solver="auto"
+        "past": bool(rng.random() < 0.3),  # estimator object and input buffers re-used after an earlier fit
+        "solver": gens.pick(rng, ("full", "full", "full", "arpack", "randomized")),
+        "pseed": int(rng.integers(1 << 30)),
         "Z": rng.normal(size=(nz, X.shape[1])) * float(np.abs(X).max()),
     }
 
@@ -77,12 +80,22 @@ def run(case, j):
     sT = float(np.sqrt(w[0]))
     Yfit, _ = pc.fit_args(reg, X, Y)  # targets as the estimator saw them
     ests = {}
+    robj = pc.make_regressor(reg)  # one regressor object shared by every fit of the case
+    solver = case.get("solver", "full")
     with pc.Capture() as cap:
         for kk in ([k, k + 1] if two else [k]):
+            past = np.random.default_rng(case["pseed"] + kk) if case.get("past") else None
+            skw = {"svd_solver": "full"}
+            if solver == "arpack" and kk < min(n, m):
+                skw = {"svd_solver": "arpack", "random_state": 3}
+                j.note("arpack_fits")
+            elif solver == "randomized" and kk + 10 >= min(n, m + np.ndim(Y) + 3):
+                skw = {"svd_solver": "randomized", "random_state": 3, "iterated_power": 30}
+                j.note("randomized_fits")
             if case.get("defaults"):
-                ests[kk] = pc.fit_pcovr(j, "defaults", X, Y, reg, mixing=a, space=space)
+                ests[kk] = pc.fit_pcovr(j, "defaults", X, Y, reg, regressor_obj=robj, past=past, mixing=a, space=space)
             else:
-                ests[kk] = pc.fit_pcovr(j, f"k={kk}", X, Y, reg, mixing=a, n_components=kk, space=space, svd_solver="full")
+                ests[kk] = pc.fit_pcovr(j, f"k={kk}", X, Y, reg, regressor_obj=robj, past=past, mixing=a, n_components=kk, space=space, **skw)
     for kk, est in ests.items():
         j.note("fits_judged")
         T = np.asarray(est.transform(X))
@@ -100,7 +113,7 @@ def run(case, j):
         j.close("latent coordinates orthogonal with squared norms == retained eigenvalues", G, np.diag(w[:kk]), tol * w[0] * 10)
         if cap.ker or cap.cov:
             used = getattr(est, "space_", space)
-            wc = pc.spectrum((cap.ker if used == "sample" and cap.ker else (cap.cov if cap.cov else cap.ker))[0])
+            wc = pc.spectrum((cap.ker if used == "sample" and cap.ker else (cap.cov if cap.cov else cap.ker))[-1])  # last capture = the fit on the real data
             j.close("squared norms == eigenvalues of the captured matrix", np.diag(G), wc[:kk], tol * w[0] * 10)
         Tb = np.asarray(est.transform(est.inverse_transform(T)))
         j.close("transform(inverse_transform(T)) == T", Tb, T, tol * sT * 10)
